@@ -1,7 +1,9 @@
 use crate::prop::PropDef;
 
 pub mod c01;
+pub mod c02;
+pub mod c05;
 
 pub fn all() -> Vec<&'static PropDef> {
-    vec![&c01::DEF]
+    vec![&c01::DEF, &c02::DEF, &c05::DEF]
 }
